@@ -78,6 +78,7 @@ type cnDriver struct {
 	lastPropH   int64            // height of the last successful proposal
 	nProposals  int              // governance proposals submitted successfully so far (their ids are 1..nProposals)
 	maxGroup    int              // largest primary committee size requested by runtime registrations
+	rhFocus     bool             // runtime rounds in focus: every node joins the runtimes at once, small unconstrained committees, no liveness evaluation
 }
 
 func (d *cnDriver) emit(m map[string]any) {
@@ -489,7 +490,7 @@ func (d *cnDriver) step() error {
 			rts := d.nodeRts[v.name]
 			validity := "ok"
 			switch x := d.rng.Intn(12); {
-			case x < 6 && len(d.rtOwner) > 0 && rts == "" && i != 1:
+			case (x < 6 || d.rhFocus) && len(d.rtOwner) > 0 && rts == "" && i != 1:
 				// (node 1 stays a plain validator: a compute worker can be frozen for missing liveness, and the documented
 				//  precondition of C10 is that one validator stays eligible throughout)
 				// join registered runtimes as a compute worker (sorted: map order must not leak into the seeded scenario)
@@ -660,7 +661,11 @@ func (d *cnDriver) step() error {
 				sp.Validity = "badpct"
 			}
 		}
-		if d.rng.Intn(2) == 0 {
+		if d.rhFocus {
+			// rounds in focus: small committees that every node can fill, no constraints that leave a runtime without a committee
+			sp.Shape = fmt.Sprintf("g%db%dm0p0v0s%d", 2+d.rng.Intn(2), d.rng.Intn(2), d.rng.Intn(2))
+		}
+		if d.rng.Intn(2) == 0 && !d.rhFocus {
 			// liveness of the committee is evaluated when the epoch ends: a worker that committed in too few rounds is suspended
 			// for the runtime and, after the tolerated number of failures, slashed and frozen - before the next election reads
 			// the candidates
@@ -1507,6 +1512,7 @@ func consRun(args []string) int {
 	onDisk := fs.Bool("ondisk", true, "validator replicas keep their state on disk (enables restart paths)")
 	maxVals := fs.Int("maxvals", 3, "scheduler MaxValidators")
 	maxPerEntity := fs.Int("maxperentity", 1, "scheduler MaxValidatorsPerEntity")
+	rhFocus := fs.Bool("rhfocus", false, "runtime rounds in focus: nodes join runtimes at their first renewal, small unconstrained committees, no liveness evaluation")
 	maxGroup := fs.Int("maxgroup", 2, "largest primary committee size requested by runtime registrations")
 	noRounds := fs.Bool("norounds", false, "do not submit executor commitments")
 	tiny := fs.Bool("tinystake", false, "stake thresholds of 1-2 base units and escrows around them and around one voting-power unit (16)")
@@ -1552,7 +1558,7 @@ func consRun(args []string) int {
 		return 2
 	}
 	d := &cnDriver{net: net, txSweep: *txSweep, vaults: *vaults, rhQuiet: map[string]int64{}, valset: map[int]int64{}, rng: rand.New(rand.NewSource(*seed)), w: bufio.NewWriterSize(w, 1<<20),
-		paths: map[string]int{}, txKinds: map[string]int{}, nodeRts: map[string]string{}, pendRts: map[*cnTxSpec]string{}, rtOwner: map[string]string{}, rtDeps: map[string][][2]int64{}, nodeVer: map[string]int64{}, maxGroup: *maxGroup, noRounds: *noRounds, syncEvery: *syncEvery}
+		paths: map[string]int{}, txKinds: map[string]int{}, nodeRts: map[string]string{}, pendRts: map[*cnTxSpec]string{}, rtOwner: map[string]string{}, rtDeps: map[string][][2]int64{}, nodeVer: map[string]int64{}, maxGroup: *maxGroup, rhFocus: *rhFocus, noRounds: *noRounds, syncEvery: *syncEvery}
 	if *syncEvery > 0 {
 		d.blockLog = map[int64]*cnLogged{}
 	}
